@@ -63,6 +63,16 @@ func TestC17(t *testing.T) {
 	Ev.Component("bowl (recording wrapper), old-build pool (recording wrapper), patch source", "simulated / recorded")
 	Prop(t, "C17", func(rt *rapid.T) {
 		pair := GenPair(rt, GenOpts{Links: true, EmptyDirs: true, LowEntropy: true, MaxMid: 200 * KiB})
+		if rapid.IntRange(0, 9).Draw(rt, "manyfiles") == 0 {
+			// a new build with many more files than the old one (indices far beyond the old build's)
+			n := rapid.IntRange(60, 200).Draw(rt, "nmanyfiles")
+			for i := 0; i < n; i++ {
+				pair.New[fmt.Sprintf("many/m%03d", i)] = &Entry{Kind: KFile, Data: Bytes(uint64(i)+3, []int{0, 5, 200, 70000}[i%4/1%4])}
+				pair.Meta[fmt.Sprintf("many/m%03d", i)] = FileMeta{Op: "add"}
+			}
+			pair.New.Normalize()
+			Ev.Probe("new_build_with_many_more_files_than_old")
+		}
 		dir, cleanup := RunDir()
 		defer cleanup()
 		oldDir, newDir, outDir := filepath.Join(dir, "old"), filepath.Join(dir, "new"), filepath.Join(dir, "out")
